@@ -19,6 +19,8 @@ sys.path.insert(0, ROOT)
 PROPS = {
     # property -> list of contract modules (each: variants(world, tier) and optional extras(tier))
     "C01": ["contracts.c01_simplifier"],
+    "C03": ["contracts.c03_typechecker", "contracts.c06_constructors"],
+    "C06": ["contracts.c06_constructors"],
 }
 
 
